@@ -2,6 +2,7 @@
 // and velocity models; shared by C01, C09, C14, C16, C17, C18.
 #pragma once
 #include "wbgen.h"
+#include <functional>
 
 namespace worlds
 {
@@ -17,6 +18,11 @@ namespace worlds
     bool custom_cs = false; P2 cs0 = {{0,0}}, cs1 = {{1,0}};   // cross section end points in lattice units
     double shift = 0;             // added to every x / longitude in the file (lattice units), e.g. 178 moves a spherical world across the dateline
     double scale = 1;             // multiplies the lattice unit (e.g. 8: a spherical world spanning +-40 degrees)
+    std::function<P2(const P2 &)> map;   // applied to every surface coordinate written to the file (C08: rigid motions)
+    double plume_azimuth_shift = 0;      // added to the plume's 'rotation angles' (degrees, clockwise from north)
+    bool depth_points = false;           // continental max depth and mantle-layer min depth given as values at points
+    bool area_only = false;              // no plume, slab or fault
+    bool multi_ridge = false;            // oceanic plate: two oblique ridge segments offset along a transform fault, spreading velocity varying along them
   };
 
   inline std::string uniform_grains(const std::string &comps, int n, double a0)
@@ -35,30 +41,32 @@ namespace worlds
   {
     const double s = (o.spherical ? 1.0 : 1e5) * o.scale;
     const double shift = (o.variant == 1 ? 0.5 : 0.0) + o.shift;
+    auto M = [&](double x, double y) { const P2 q = {{(x+shift)*s, y*s}}; return o.map ? o.map(q) : q; };
     auto sq = [&](double x0, double x1, double y0, double y1)
-    { return pts({{(x0+shift)*s,y0*s},{(x1+shift)*s,y0*s},{(x1+shift)*s,y1*s},{(x0+shift)*s,y1*s}}); };
-    auto P = [&](double x, double y) { return pt({(x+shift)*s, y*s}); };
+    { return pts({M(x0,y0), M(x1,y0), M(x1,y1), M(x0,y1)}); };
+    auto P = [&](double x, double y) { return pt(M(x, y)); };
     std::vector<std::string> f;
-    f.push_back("{\"model\":\"mantle layer\",\"name\":\"ML\",\"min depth\":1e5,\"max depth\":4e5,\"coordinates\":" + sq(-5,5,-5,5) +
+    f.push_back("{\"model\":\"mantle layer\",\"name\":\"ML\",\"min depth\":" + (o.depth_points ? "[[1e5],[1.6e5,[" + P(-2.5,-2.5) + "," + P(3,1) + "]],[0.7e5,[" + P(2,-3) + "]]]" : std::string("1e5")) + ",\"max depth\":4e5,\"coordinates\":" + sq(-5,5,-5,5) +
                 ",\"temperature models\":[{\"model\":\"linear\",\"min depth\":1e5,\"max depth\":4e5,\"top temperature\":1500,\"bottom temperature\":1700}]"
                 ",\"composition models\":[{\"model\":\"uniform\",\"compositions\":[2]}]"
                 ",\"grains models\":[" + uniform_grains("[0,1]", 2, 10) + "]"
                 ",\"velocity models\":[{\"model\":\"uniform raw\",\"velocity\":[0.01,0.02,0.03]}]}");
-    f.push_back("{\"model\":\"continental plate\",\"name\":\"CP\",\"max depth\":1.5e5,\"coordinates\":" + sq(-5,0,-5,5) +
+    f.push_back("{\"model\":\"continental plate\",\"name\":\"CP\",\"max depth\":" + (o.depth_points ? "[[1.5e5],[0.9e5,[" + P(-2.5,0) + "," + P(-5,5) + "]],[2.1e5,[" + P(-1,-3) + "]]]" : std::string("1.5e5")) + ",\"coordinates\":" + sq(-5,0,-5,5) +
                 ",\"temperature models\":[{\"model\":\"linear\",\"max depth\":1.5e5,\"top temperature\":300,\"bottom temperature\":1400}]"
                 ",\"composition models\":[{\"model\":\"uniform\",\"compositions\":[0]}]"
                 ",\"grains models\":[" + uniform_grains("[0]", 1, 15) + (o.random_models ? ",{\"model\":\"random uniform distribution\",\"compositions\":[1],\"grain sizes\":[-1],\"normalize grain sizes\":[true]}" : "") + "]"
                 ",\"velocity models\":[{\"model\":\"uniform raw\",\"velocity\":[-0.04,0.05,0.001]}]}");
     f.push_back("{\"model\":\"oceanic plate\",\"name\":\"OP\",\"max depth\":1e5,\"coordinates\":" + sq(0,5,-5,5) +
                 ",\"temperature models\":[{\"model\":\"half space model\",\"max depth\":1e5,\"top temperature\":280,\"bottom temperature\":1600,"
-                "\"spreading velocity\":0.03,\"ridge coordinates\":[[" + P(4.5,-6) + "," + P(4.5,6) + "]]}]"
+                + (o.multi_ridge ? "\"spreading velocity\":[[0,[[0.03,0.05],[0.02,0.04]]]],\"ridge coordinates\":[[" + P(4.5,-6) + "," + P(4.0,0.25) + "],[" + P(3.0,-0.25) + "," + P(3.5,6) + "]]}]"
+                   : "\"spreading velocity\":0.03,\"ridge coordinates\":[[" + P(4.5,-6) + "," + P(4.5,6) + "]]}]") +
                 ",\"composition models\":[{\"model\":\"uniform\",\"compositions\":[1,0],\"fractions\":[0.75,0.25]}" +
                 (o.random_models ? ",{\"model\":\"uniform\",\"compositions\":[3],\"operation\":\"replace defined only\"}" : "") + "]"
                 ",\"grains models\":[" + uniform_grains("[1]", 1, 25) + "]"
                 ",\"velocity models\":[{\"model\":\"uniform raw\",\"velocity\":[0.06,-0.01,0.002]}]}");
     f.push_back("{\"model\":\"plume\",\"name\":\"PL\",\"min depth\":2e4,\"max depth\":6e5,\"coordinates\":[" + P(-2,2) + "," + P(-2.2,2.1) + "," + P(-2.5,2.5) + "]"
                 ",\"cross section depths\":[1e5,2e5,4e5],\"semi-major axis\":[" + num(1.2*s) + "," + num(0.8*s) + "," + num(1.0*s) + "]"
-                ",\"eccentricity\":[0.3,0.5,0.0],\"rotation angles\":[350,10,40]"
+                ",\"eccentricity\":[0.3,0.5,0.0],\"rotation angles\":[" + num(std::fmod(350 + o.plume_azimuth_shift + 720, 360.0)) + "," + num(std::fmod(10 + o.plume_azimuth_shift + 720, 360.0)) + "," + num(std::fmod(40 + o.plume_azimuth_shift + 720, 360.0)) + "]"
                 ",\"temperature models\":[{\"model\":\"gaussian\",\"operation\":\"add\",\"centerline temperatures\":[150,250],\"gaussian sigmas\":[0.3,0.4],\"depths\":[5e4,5e5]}]"
                 ",\"composition models\":[{\"model\":\"uniform\",\"compositions\":[3]}]"
                 ",\"grains models\":[" + uniform_grains("[0,1]", 2, 35) + "]"
@@ -75,9 +83,11 @@ namespace worlds
                 ",\"composition models\":[{\"model\":\"smooth\",\"compositions\":[1],\"side distance fault center\":3e4,\"center fractions\":[1.0],\"side fractions\":[0.25]}]"
                 ",\"grains models\":[" + uniform_grains("[1]", 1, 55) + "]"
                 ",\"velocity models\":[{\"model\":\"uniform raw\",\"velocity\":[0.001,0.002,0.003]}]}");
+    if (o.area_only) f.resize(3);
     std::string m = coord(o.spherical);
-    if (o.cross_section && o.custom_cs) m += ",\"cross section\":[" + pt({o.cs0[0]*s, o.cs0[1]*s}) + "," + pt({o.cs1[0]*s, o.cs1[1]*s}) + "]";
-    else if (o.cross_section) m += ",\"cross section\":[" + pt({(-4.5+o.shift)*s, -3.5*s}) + "," + pt({(3.5+o.shift)*s, 2.5*s}) + "]";
+    auto MC = [&](const P2 &q) { return o.map ? o.map(q) : q; };
+    if (o.cross_section && o.custom_cs) m += ",\"cross section\":[" + pt(MC({{o.cs0[0]*s, o.cs0[1]*s}})) + "," + pt(MC({{o.cs1[0]*s, o.cs1[1]*s}})) + "]";
+    else if (o.cross_section) m += ",\"cross section\":[" + pt(MC({{(-4.5+o.shift)*s, -3.5*s}})) + "," + pt(MC({{(3.5+o.shift)*s, 2.5*s}})) + "]";
     if (o.force_surface) m += ",\"force surface temperature\":true,\"surface temperature\":273.5";
     if (o.variant == 1) m += ",\"potential mantle temperature\":1700,\"thermal expansion coefficient\":2e-5,\"specific heat\":1000,\"gravity model\":{\"model\":\"uniform\",\"magnitude\":10}";
     return world(m, f);
